@@ -4,6 +4,7 @@ import sym
 
 CONFIGS_QUICK = ["F_def"]
 CONFIGS_THOROUGH = ["F_def", "F_all"]
+TECHNIQUE = 'static analysis: exact value sets of byte predicates, extracted replacement and entity tables (inverse check), decision table of numeric character references'
 EXPLANATION = (
     "Value sets of the byte predicates of escape/partial_escape/minimal_escape (exact sets by value-set propagation "
     "over their MIR) against the promised sets; the replacement table of _escape (byte -> literal) checked to be the "
